@@ -261,6 +261,8 @@ func mcCatalog() *Catalog {
 	cat.addBlob("b0", []int{})
 	cat.addBlob("b1", []int{1})
 	cat.addBlob("b2", []int{1, 2})
+	cat.addBlob("b3", []int{1, 2, 1})
+	cat.addBlob("b4", []int{1, 2, 1, 2})
 	cat.addImage("img", "b1", nil, "-", "-", "img", "", 0)
 	cat.addIndex("idx", [][2]string{{"img", "image"}}, "-", "-", "idx")
 	cat.addIndex("idy", [][2]string{{"img", "other"}}, "-", "-", "idy")
